@@ -118,6 +118,10 @@ inductive Guard
   | underTm
   /-- reads of knownPathList (allowed on snapshots without a lock) -/
   | free
+  /-- live shard state (a *destination out of destinationShard.mp, its knownPathList slice) handed to a
+  caller that does not hold the shard lock: no lock set makes this acceptable — what leaves a shard lock
+  must be a copy -/
+  | never
   deriving DecidableEq, Repr
 
 /-- the rule each access site has to satisfy with the locks it MUST hold -/
@@ -127,6 +131,7 @@ def guardOk : Guard → Held → Bool
   | .underShardW, h => has h shard .W
   | .underTm, h => hasAny h tm
   | .free, _ => true
+  | .never, _ => false
 
 def guardOf (what : String) (write : Bool) : Option Guard :=
   match what with
@@ -135,6 +140,7 @@ def guardOf (what : String) (write : Bool) : Option Guard :=
   | "knownPathList" => some (if write then .underShardW else .free)
   | "getOrCreateDest" | "deleteDest" => some .underShardW
   | "getTables" => some .underTm
+  | "shardEscape" => some .never
   | _ => none
 
 end LockEdges
